@@ -290,10 +290,15 @@ class Check:
                     for m in re.finditer(r'^@CLASS (.*)$', w.stderr[-4000:], re.M):
                         cls = m.group(1).strip()
                     # a watchdog expiry is re-run once, alone and with a generous limit, before it is called a hang (machine load)
-                    rcmd = [exe] + base_args + ['--seed', str(self.seed), '--start', str(died or 0), '--cases', '1', '--case-seconds', '180']
+                    cs, ba = 180, list(base_args)
+                    if '--case-seconds' in ba:      # a check that budgets more than that for one case (long enumerations) keeps its own limit
+                        k = ba.index('--case-seconds')
+                        cs = max(cs, int(ba[k + 1]))
+                        del ba[k:k + 2]
+                    rcmd = [exe] + ba + ['--seed', str(self.seed), '--start', str(died or 0), '--cases', '1', '--case-seconds', str(cs)]
                     self._hang_reruns = getattr(self, '_hang_reruns', 0) + 1
                     if self._hang_reruns <= 3:      # once a hang has been reproduced a few times further expiries are taken at face value
-                        rc2, so2, se2, to2, _ = self.run_proc(rcmd, timeout=240)
+                        rc2, so2, se2, to2, _ = self.run_proc(rcmd, timeout=cs + 60)
                     else:
                         so2, se2, to2 = '', '', True
                     if 'DONE' in so2 and not to2:
@@ -306,7 +311,7 @@ class Check:
                             self.violations.append(Violation(key, detail, {'cmd': rcmd}))
                     else:
                         self.violations.append(Violation('hang|' + (cls or label or os.path.basename(exe)),
-                                                         'per-case watchdog expired at case %s, and again when re-run alone with 180 s' % died,
+                                                         'per-case watchdog expired at case %s, and again when re-run alone with %d s' % (died, cs),
                                                          {'cmd': rcmd}))
                 elif w.timeout:
                     self.violations.append(Violation('hang|' + (label or os.path.basename(exe)),
